@@ -97,6 +97,7 @@ func runC03(r *Run, replay *Case) {
 		}
 		if replay.Input["stream"] == "operand-history" {
 			c03OperandHistory(r)
+			c03OnceMemberHistory(r)
 			return
 		}
 		if replay.Input["stream"] == "pathcond" {
@@ -119,4 +120,5 @@ func runC03(r *Run, replay *Case) {
 	c03PathConds(r)
 	c03TypeHistory(r)
 	c03OperandHistory(r)
+	c03OnceMemberHistory(r)
 }
